@@ -259,6 +259,10 @@ func ruleStickyRemainders(c *Ctx) {
 				}
 			}
 		}
+		if used && okForm && !ev.commit {
+			c.check(!p.remainderKilled(ev.stack, rkey), "kill:"+key, ev.stmt, "the remainder is read before it is assigned again on every path",
+				fmt.Sprintf("%s: on some path the remainder of %s ÷ 10^%d is assigned again (the next division) before it has been examined, so the digits dropped here are forgotten", ev.fn, ev.tname, ev.k), fp...)
+		}
 		switch {
 		case !used:
 			c.bad(key, ev.stmt, fmt.Sprintf("%s: the remainder of %s ÷ 10^%d is never examined: dropped digits are forgotten", ev.fn, ev.tname, ev.k), fp...)
@@ -1042,6 +1046,227 @@ func straightStmt(s ast.Stmt) bool {
 	switch s.(type) {
 	case *ast.AssignStmt, *ast.DeclStmt, *ast.IncDecStmt:
 		return true
+	}
+	return false
+}
+
+// ---------------------------------------------------------------------------
+// Remainder kill: between a division that drops digits and the next assignment to its remainder
+// variable, the remainder must be read on every path (structured may-kill walk over the syntax: a path on
+// which the variable is reassigned first is a path on which dropped digits are forgotten). break, continue,
+// goto and return end a path without a verdict (the commit idiom leaves a loop before the quotient is kept).
+
+type remFate int
+
+const (
+	fateNone remFate = iota // falls through without reading or assigning
+	fateUsed                // read (or the path ends) on every path
+	fateKill                // some path assigns the variable before reading it
+)
+
+func (p *Prog) fateList(list []ast.Stmt, key string) remFate {
+	for _, s := range list {
+		if f := p.fateStmt(s, key); f != fateNone {
+			return f
+		}
+	}
+	return fateNone
+}
+
+func (p *Prog) fateClauses(body *ast.BlockStmt, key string) remFate {
+	all, hasDefault := true, false
+	for i, cl := range body.List {
+		cc, ok := cl.(*ast.CaseClause)
+		if !ok {
+			return fateNone
+		}
+		if cc.List == nil {
+			hasDefault = true
+		}
+		for _, e := range cc.List {
+			if p.usesVar(e, key) {
+				return fateUsed
+			}
+		}
+		f := p.fateList(cc.Body, key)
+		for j := i; f == fateNone && j+1 < len(body.List); j++ {
+			cur := body.List[j].(*ast.CaseClause)
+			if n := len(cur.Body); n == 0 {
+				break
+			} else if br, ok := cur.Body[n-1].(*ast.BranchStmt); !ok || br.Tok != token.FALLTHROUGH {
+				break
+			}
+			f = p.fateList(body.List[j+1].(*ast.CaseClause).Body, key)
+		}
+		if f == fateKill {
+			return fateKill
+		}
+		if f != fateUsed {
+			all = false
+		}
+	}
+	if all && hasDefault {
+		return fateUsed
+	}
+	return fateNone
+}
+
+func (p *Prog) fateStmt(s ast.Stmt, key string) remFate {
+	switch x := s.(type) {
+	case *ast.AssignStmt:
+		if p.readsVar(x, key) {
+			return fateUsed
+		}
+		for _, l := range x.Lhs {
+			if p.exprKey(l) == key {
+				return fateKill
+			}
+		}
+		return fateNone
+	case *ast.ReturnStmt:
+		return fateUsed
+	case *ast.BranchStmt:
+		if x.Tok == token.FALLTHROUGH {
+			return fateNone
+		}
+		return fateUsed
+	case *ast.BlockStmt:
+		return p.fateList(x.List, key)
+	case *ast.IfStmt:
+		if x.Init != nil {
+			if f := p.fateStmt(x.Init, key); f != fateNone {
+				return f
+			}
+		}
+		if p.usesVar(x.Cond, key) {
+			return fateUsed
+		}
+		a := p.fateList(x.Body.List, key)
+		b := fateNone
+		if x.Else != nil {
+			b = p.fateStmt(x.Else, key)
+		}
+		if a == fateKill || b == fateKill {
+			return fateKill
+		}
+		if a == fateUsed && b == fateUsed {
+			return fateUsed
+		}
+		return fateNone
+	case *ast.ForStmt:
+		if x.Init != nil {
+			if f := p.fateStmt(x.Init, key); f != fateNone {
+				return f
+			}
+		}
+		if x.Cond != nil && p.usesVar(x.Cond, key) {
+			return fateUsed
+		}
+		if p.fateList(x.Body.List, key) == fateKill {
+			return fateKill
+		}
+		return fateNone
+	case *ast.SwitchStmt:
+		if x.Init != nil {
+			if f := p.fateStmt(x.Init, key); f != fateNone {
+				return f
+			}
+		}
+		if x.Tag != nil && p.usesVar(x.Tag, key) {
+			return fateUsed
+		}
+		return p.fateClauses(x.Body, key)
+	case *ast.DeclStmt:
+		return fateNone
+	}
+	if p.usesVar(s, key) {
+		return fateUsed
+	}
+	return fateNone
+}
+
+// remainderKilled walks outward from the division statement (last element of stack).
+func (p *Prog) remainderKilled(stack []ast.Node, key string) bool {
+	cur := stack[len(stack)-1]
+	for i := len(stack) - 2; i >= 0; i-- {
+		switch par := stack[i].(type) {
+		case *ast.BlockStmt:
+			for j, s := range par.List {
+				if ast.Node(s) == cur {
+					switch p.fateList(par.List[j+1:], key) {
+					case fateKill:
+						return true
+					case fateUsed:
+						return false
+					}
+				}
+			}
+			cur = par
+		case *ast.CaseClause:
+			for j, s := range par.Body {
+				if ast.Node(s) == cur {
+					switch p.fateList(par.Body[j+1:], key) {
+					case fateKill:
+						return true
+					case fateUsed:
+						return false
+					}
+				}
+			}
+			// fallthrough into the following clauses
+			if n := len(par.Body); n > 0 && i >= 1 {
+				if br, ok := par.Body[n-1].(*ast.BranchStmt); ok && br.Tok == token.FALLTHROUGH {
+					if body, ok := stack[i-1].(*ast.BlockStmt); ok {
+						at := -1
+						for j, cl := range body.List {
+							if ast.Node(cl) == ast.Node(par) {
+								at = j
+							}
+						}
+						for j := at + 1; at >= 0 && j < len(body.List); j++ {
+							cc := body.List[j].(*ast.CaseClause)
+							switch p.fateList(cc.Body, key) {
+							case fateKill:
+								return true
+							case fateUsed:
+								return false
+							}
+							if m := len(cc.Body); m == 0 {
+								break
+							} else if br, ok := cc.Body[m-1].(*ast.BranchStmt); !ok || br.Tok != token.FALLTHROUGH {
+								break
+							}
+						}
+					}
+				}
+			}
+			cur = par
+			// skip the switch body block: control continues after the switch statement
+			if i >= 1 {
+				if _, ok := stack[i-1].(*ast.BlockStmt); ok {
+					i--
+					cur = stack[i]
+				}
+			}
+		case *ast.ForStmt:
+			if ast.Node(par.Body) == cur {
+				if par.Post != nil && p.readsVar(par.Post, key) {
+					return false
+				}
+				if par.Cond != nil && p.usesVar(par.Cond, key) {
+					return false
+				}
+				switch p.fateList(par.Body.List, key) {
+				case fateKill:
+					return true
+				}
+			}
+			cur = par
+		case *ast.FuncDecl, *ast.FuncLit:
+			return false
+		default:
+			cur = par
+		}
 	}
 	return false
 }
